@@ -89,6 +89,18 @@ func (lalr *LALR1) fechStateNumber(rIndex int) []int {
 	return ret
 }
 
+// walkPath follows the transitions labelled syms from state p.
+func (lalr *LALR1) walkPath(p int, syms []*symbol.Symbol) (int, bool) {
+	for _, sy := range syms {
+		gt := lalr.G.LR0.LR0Closure[p].FindItemClosure(sy)
+		if gt == nil {
+			return p, false
+		}
+		p = gt.ItemCl
+	}
+	return p, true
+}
+
 // return  trans index
 func (lalr *LALR1) fetchTransIndex(state, sym int) (int, error) {
 	for index, tr := range lalr.trans {
